@@ -1,0 +1,34 @@
+//go:build verif
+// +build verif
+
+package tdpos
+
+import "github.com/xuperchain/xupercore/kernel/consensus/base"
+
+// This file only exists under the build tag "verif". It adds exported wrappers around the
+// package-private slot schedule for the external verification harness; it changes no behaviour.
+
+// VerifSchedule is a read-only handle on the slot schedule of a tdpos consensus instance.
+type VerifSchedule struct {
+	s *tdposSchedule
+}
+
+// VerifScheduleOf returns the schedule of an instance created by NewTdposConsensus (nil otherwise).
+func VerifScheduleOf(c base.ConsensusImplInterface) *VerifSchedule {
+	tp, ok := c.(*tdposConsensus)
+	if !ok || tp == nil || tp.election == nil {
+		return nil
+	}
+	return &VerifSchedule{s: tp.election}
+}
+
+// MinerScheduling wraps tdposSchedule.minerScheduling (timestamp in unix nanoseconds).
+func (v *VerifSchedule) MinerScheduling(timestamp int64) (term int64, pos int64, blockPos int64) {
+	return v.s.minerScheduling(timestamp)
+}
+
+// Params returns period, blockNum, proposerNum, alternateInterval, termInterval (milliseconds / counts)
+// and initTimestamp (nanoseconds) as the instance parsed them from its configuration.
+func (v *VerifSchedule) Params() (period, blockNum, proposerNum, alternateInterval, termInterval, initTimestamp int64) {
+	return v.s.period, v.s.blockNum, v.s.proposerNum, v.s.alternateInterval, v.s.termInterval, v.s.initTimestamp
+}
